@@ -131,14 +131,19 @@ def main(run):
         flag_contains = (_Ep(Hn["H1"]) in Dp((1, 0))) is True
     except Exception:  # noqa: BLE001
         flag_contains = False
+    try:
+        flag_named_contains = (_Ep(Dp((2, 2))) in Hn["H1"]) is True
+    except Exception:  # noqa: BLE001
+        flag_named_contains = False
     run.extra["model_variant"] = {"dir_all_any": flag_all_any, "unknown_raises": flag_raises,
-                                  "explicit_ops": flag_explicit, "contains_le": flag_contains}
+                                  "explicit_ops": flag_explicit, "contains_le": flag_contains,
+                                  "named_contains_le": flag_named_contains}
     t.append("Definition S : specials := {| id_L2 := %d; id_H1 := %d; id_H2 := %d; id_H3 := %d; id_HInf := %d; "
              "id_HDiv := %d; id_HCurl := %d; unknown_ids := [%s]; dir_all_any := %s; unknown_raises := %s; "
-             "explicit_ops := %s; contains_le := %s; item_parents := [%s] |}.\n"
+             "explicit_ops := %s; contains_le := %s; named_contains_le := %s; item_parents := [%s] |}.\n"
              % (ids["L2"], ids["H1"], ids["H2"], ids["H3"], ids["HInf"], ids["HDiv"], ids["HCurl"],
                 "; ".join(str(ids[u]) for u in UNKNOWN), str(flag_all_any).lower(), str(flag_raises).lower(),
-                str(flag_explicit).lower(), str(flag_contains).lower(),
+                str(flag_explicit).lower(), str(flag_contains).lower(), str(flag_named_contains).lower(),
                 "; ".join("(%d, [%s])" % (ids[n], "; ".join(str(ids[p.name]) for p in sorted(Hn[n].parents, key=lambda p: ids[p.name])))
                           for n in ("L2", "H1", "H2", "H3", "HInf"))))
     t.append("Definition grid : list sp := [" + "; ".join(cq(k, o) for k, o in grid) + "].\n")
@@ -225,6 +230,25 @@ def main(run):
                  "Proof. exists [Fin 1; Fin 0], n_H1. vm_compute. auto. Qed.\n")
     else:
         t.append("Theorem C25_membership_dir_all : membership_dir_all S tbl dirs tbl = true. Proof. vm_compute. reflexivity. Qed.\n")
+    # membership for elements whose space is ANY grid space (also directional), for the space object itself and
+    # for an equal but distinct copy of it (the model is value based)
+    import copy
+    for tag, mk in (("gen", lambda x: x), ("copy", copy.deepcopy)):
+        grows = []
+        for kt, tt in grid:
+            row = []
+            for kx, x in grid:
+                txt, raw = res_text(lambda: _E(mk(x)) in tt)
+                row.append(txt)
+                run.count_case(("in-" + tag, str(x), str(tt)), nontrivial=True)
+            grows.append("[" + "; ".join(row) + "]")
+        t.append(f"Example corr_contains_{tag} : map (fun t => map (contains_gen S t) grid) grid = [\n"
+                 + ";\n".join(grows) + "].\nProof. vm_compute. reflexivity. Qed.\n")
+    if flag_named_contains and flag_contains and flag_explicit and flag_all_any:
+        t.append("Theorem C25_membership_gen_all : membership_gen_all S tbl grid = true. Proof. vm_compute. reflexivity. Qed.\n")
+    else:
+        t.append("Theorem C25_membership_gen_refuted : exists t x, contains_gen S t x = RB false /\\ sub_spec S tbl x t = true.\n"
+                 "Proof. exists (Named n_H1), (Dir [Fin 2; Fin 2]). vm_compute. auto. Qed.\n")
     t.append("Print Assumptions C25_grid_ok_outside_known.\nPrint Assumptions C25_named_trans.\n")
     path = os.path.join(vlib.GEN, "C25_table.v")
     vlib.write_if_changed(path, "".join(t))
@@ -267,8 +291,30 @@ def main(run):
             return (_E(H["H1"]) in D((1, 0))) is False
         if kid == "directional-lt-named-any":
             return (D((2, 0)) < H["H1"]) is True
+        if kid == "named-membership-of-directional-element":
+            return (_E(D((2, 2))) in H["H1"]) is False
         return False
 
+    # a defective variant is only acceptable while an OPEN known finding records it; a repaired defect that
+    # comes back is a violation (the probes below are the failing inputs)
+    probes = {
+        "total-ordering-on-partial-order": (not flag_explicit, {"a": "HDiv", "b": "HCurl", "observed": "HDiv > HCurl is True "
+                                            "while HCurl < HDiv is False", "expected": "both False (incomparable)"}),
+        "directional-lt-any": (not flag_all_any, {"a": "DirectionalH(2, 0)", "b": "DirectionalH(0, 2)",
+                                                  "observed": "a < b is True", "expected": "False (incomparable)"}),
+        "directional-lt-returns-exception-object": (not flag_raises, {"a": "DirectionalH(1, 1)", "b": "HEin",
+                                                    "observed": "a < b returns an exception object (truthy)",
+                                                    "expected": "raise"}),
+        "directional-membership-proper-superset": (not flag_contains, {"element_space": "H1", "space": "DirectionalH(1, 0)",
+                                                   "observed": "fe in space is not True", "expected": "True"}),
+        "named-membership-of-directional-element": (not flag_named_contains, {"element_space": "DirectionalH(2, 2)",
+                                                    "space": "H1", "observed": "fe in H1 is not True",
+                                                    "expected": "True (H^(2,2) == H2 <= H1)"}),
+    }
+    returned = [(kid, w_) for kid, (bad, w_) in probes.items() if bad and kid not in known]
+    for kid, w_ in returned:
+        run.violation({"broken": f"the defect '{kid}' is present and no open known finding records it "
+                                 "(a repaired defect has returned)", "witness": w_, "reproduce": "bin/check C25"}, True)
     if res.ok and hand.ok and shape_ok:
         for kid, k in known.items():
             if still(kid):
@@ -343,6 +389,22 @@ def python_search(grid, ops):
             if r is not sub(y, x):
                 return {"element_space": y[1].name, "space": str(x[1]), "operator": "in", "returned": repr(r),
                         "expected": sub(y, x)}
+    import copy
+    for tt in grid:
+        for x in grid:
+            if (x[0] != tt[0]) and ((x[1].name in UNKNOWN) or (tt[1].name in UNKNOWN)):
+                continue
+            if tt[0] == "D" and x[0] == "N":
+                continue          # covered above (with the known class)
+            for how, mk in (("the space object", lambda z: z), ("an equal copy (copy.deepcopy)", copy.deepcopy)):
+                try:
+                    r = _El(mk(x[1])) in tt[1]
+                except Exception as e:  # noqa: BLE001
+                    r = f"raised {type(e).__name__}"
+                if r is not sub(x, tt):
+                    return {"element_space": str(x[1]), "element_space_is": how, "space": str(tt[1]), "operator": "in",
+                            "returned": repr(r), "expected": sub(x, tt),
+                            "note": "fe in t must hold exactly when fe.sobolev_space <= t"}
     for x in grid:
         for y in grid:
             unk = (x[0] != y[0]) and ((x[1].name in UNKNOWN) or (y[1].name in UNKNOWN))
